@@ -187,7 +187,7 @@ def merge(mesh_list : list) -> Mesh:
     merged = RawMeshData()
     vertex_offset = 0
     for to_merge in mesh_list:
-        merged.vertices += to_merge.vertices
+        merged.vertices += [np.array(v) for v in to_merge.vertices] # copies: the merged mesh should not share its coordinates with its inputs
         if hasattr(to_merge, "edges") : 
             merged.edges += [tuple((vertex_offset+u for u in e)) for e in to_merge.edges]
         if hasattr(to_merge, "faces") : 
